@@ -528,6 +528,52 @@ Section Final.
   Lemma readd_replaces ops n r p :
     In (p, n) (positions vh (members_of cap (ops ++ [Add n r]))) <-> exists i, (i < Nat.min r cap)%nat /\ p = vh n i.
   Proof. rewrite members_snoc. simpl. apply spec_readd_replaces. Qed.
+  (* ---- keys as Go values ---- *)
+  Lemma repr_text k : repr k = Ok (text_of k).
+  Proof. destruct k as [|s|[t|]|t]; reflexivity. Qed.
+
+  Lemma get_key_eq hf s k inner : get_key hf s k inner = get s (hf (text_of k)) inner.
+  Proof. unfold get_key. rewrite repr_text. unfold get. destruct (ring s); reflexivity. Qed.
+
+  Lemma key_total hf ops k inner :
+    get_key hf (run vh cap ops) k inner <> Panic /\
+    (forall n, get_key hf (run vh cap ops) k inner = Ok (Some n) ->
+               exists r, In (n, r) (members_of cap ops) /\ (0 < r)%nat) /\
+    (get_key hf (run vh cap ops) k inner = Ok None <->
+       forall n r, In (n, r) (members_of cap ops) -> r = 0%nat).
+  Proof. rewrite get_key_eq. apply total. Qed.
+
+  Lemma key_same_text hf ops k1 k2 i1 i2 : text_of k1 = text_of k2 ->
+    get_key hf (run vh cap ops) k1 i1 = get_key hf (run vh cap ops) k2 i2.
+  Proof. intros E. rewrite !get_key_eq, E. apply stable. intro pn. reflexivity. Qed.
+
+  Lemma key_empty_ring hf k inner : get_key hf (run vh cap []) k inner = Ok None.
+  Proof. reflexivity. Qed.
+
+  (* removing every node (or leaving only weight-0 nodes) leaves no virtual node behind *)
+  Lemma alist_all_none {V} (rg : list (N * V)) : (forall p, alookup N.eqb p rg = None) -> rg = [].
+  Proof.
+    destruct rg as [|[p v] t]; [reflexivity|]. intro H. specialize (H p). simpl in H.
+    rewrite N.eqb_refl in H. discriminate.
+  Qed.
+
+  Lemma remove_all_empties ops :
+    (forall n r, In (n, r) (members_of cap ops) -> r = 0%nat) ->
+    keys (run vh cap ops) = [] /\ ring (run vh cap ops) = [].
+  Proof.
+    intro H. apply positions_nil_iff in H.
+    destruct (Inv_run vh cap Hinj ops) as (_ & (_ & H2 & _ & H4) & _). fold (members_of cap ops) in H2, H4.
+    rewrite H in H2, H4. split.
+    - destruct (keys (run vh cap ops)) as [|p t]; [reflexivity|]. exfalso.
+      destruct (proj1 (H2 p) (or_introl eq_refl)) as [n []].
+    - apply alist_all_none. intro p. apply H4. intros n [].
+  Qed.
+
+  Lemma members_nil_nodes ops : members_of cap ops = [] -> nodes (run vh cap ops) = [].
+  Proof.
+    intro H. destruct (Inv_run vh cap Hinj ops) as (_ & _ & Hn & _). fold (members_of cap ops) in Hn. rewrite H in Hn.
+    destruct (nodes (run vh cap ops)) as [|n t]; [reflexivity|]. exfalso. apply (Hn n). left. reflexivity.
+  Qed.
 End Final.
 
 (* non-vacuity: a hash satisfying the hypothesis, and a history on which a key moves *)
